@@ -45,6 +45,10 @@ func corpusC02() []*Case {
 	cs = append(cs, single("request vs install_if package of the requested name",
 		[]Pkg{pk("a", "1.0"), pk("r", "1.0", "a"), pk("c", "5.0").iif("a"), pk("c", "1.0")},
 		w("r", "c<2"), w("c<2", "r"), w("r"), w("r", "c")))
+	// C02-F5: the cycle cut is by name: another version of an ancestor's name is appended unexpanded
+	cs = append(cs, single("C02-F5 dependency met by another version of an ancestor's name",
+		[]Pkg{pk("d", "3", "d~2.0a", "l"), pk("d", "2.0a", "g"), pk("l", "1"), pk("g", "1"), pk("a", "2.0", "b"), pk("b", "1.0", "a<1"), pk("a", "0.5", "g")},
+		w("d"), w("d", "g"), w("a"), w("b")))
 	// shapes from repo_test.go
 	cs = append(cs, single("virtual with several providers, priorities",
 		[]Pkg{pk("app", "1.0", "v"), pk("p1", "1.0").prov("v").prio(10), pk("p2", "2.0").prov("v").prio(20), pk("p3", "3.0").prov("v=1.0")},
